@@ -52,6 +52,13 @@ class Mat:
         for fid, f in sorted(scen["files"].items(), key=lambda kv: bool(kv[1].get("copyof"))):
             d = self.dir_path(f["dir"])
             os.makedirs(d, exist_ok=True)
+            if f["name"].startswith("tosub/"):
+                # a name that goes through the directory link inc/tosub -> src/sub and back up: physically src/<name>
+                os.makedirs(os.path.join(self.root, "src", "sub"), exist_ok=True)
+                if not os.path.lexists(os.path.join(d, "tosub")):
+                    os.symlink(os.path.join("..", "src", "sub"), os.path.join(d, "tosub"))
+            elif "/" in f["name"]:
+                os.makedirs(os.path.dirname(os.path.join(d, f["name"])), exist_ok=True)
             name = f["name"]
             if ext_of and fid in ext_of:
                 # the same source text under another (C-family) extension, e.g. a C++ translation unit
